@@ -435,6 +435,26 @@ func ParseContracts(dir, pkgPath string) (*PkgContracts, error) {
 			}
 			anchor := strings.Join(strings.Fields(rest[:i]), " ")
 			cur.Asserts[anchor] = append(cur.Asserts[anchor], c)
+		case "forbid":
+			// forbid <anchor>   -- no reachable program point may match the anchor (e.g. `forbid call foo`);
+			// unlike `assert`, an anchor that matches nothing is the expected case.
+			if cur == nil {
+				return nil, fmt.Errorf("%s:%d: forbid outside func", file, l.no)
+			}
+			txt := rest
+			if i := strings.Index(txt, " // "); i >= 0 {
+				txt = strings.TrimSpace(txt[:i])
+			}
+			c, err := mkClause(kw, props, "false", l.no)
+			if err != nil {
+				return nil, err
+			}
+			c.Text = "forbid " + txt
+			if len(c.Props) == 0 {
+				c.Props = cur.Props
+			}
+			anchor := strings.Join(strings.Fields(txt), " ")
+			cur.Asserts[anchor] = append(cur.Asserts[anchor], c)
 		case "ghostvar":
 			// ghostvar <name> <type> = <init expr>   (function-local ghost variable)
 			if cur == nil {
